@@ -25,6 +25,7 @@ CONSTANTS MaxLen,      \* largest source
           Depth,       \* number of combinators
           Family,      \* "core" | "fault" | "sortgroup"
           RichBudget,  \* 0 or 1: how many RICH operations a program may hold
+          BigLen,      \* 0, or the length of one additional larger source
           SliceGrid    \* bounds used in slice(a, b, c): a, b \in SliceGrid \cup {NONE}
 
 \* named grids (a cfg file cannot hold negative numbers): SliceGrid <- GridS
@@ -71,6 +72,11 @@ CoreSources ==
   \o [n \in 1..(MaxLen + 1) |-> DictSrc(n - 1, "i", "pickle")]
   \o [n \in 1..MaxLen |-> ListSrc(n, "i", "wu")]
   \o <<ListSrc(MaxLen, "i", "copy"), DictSrc(MaxLen, "i", "copy"), DupList>>
+  \o (IF BigLen > 0
+      THEN <<ListSrc(BigLen, "i", "pickle"),
+             [op |-> "dict", ks |-> <<"a", "b", "c", "d", "e", "f", "g", "h">>, src |-> Range(1, 8),
+              pl |-> "i", iw |-> "pickle"]>>
+      ELSE <<>>)
 SortSources ==
   <<[op |-> "dict", ks |-> <<"c", "a", "d", "b">>, src |-> <<2, 1, 2, 0>>, pl |-> "d", iw |-> "pickle"],
     [op |-> "dict", ks |-> <<"b", "a">>, src |-> <<1, 1>>, pl |-> "d", iw |-> "pickle"],
